@@ -126,6 +126,27 @@ K("single_leaf_shortcut_contract", ["C15", "C01", "C06", "C07"], OPF,
   "clear_db_and_create_a_single_leaf leaves exactly Tree(0)=bucket(items) (or no tree key), metadata (name, dim, items, roots=[0]|[]), a version record; every other key untouched",
   "store: 3 arbitrary entries (<= 12-byte values); all 64-bit item sets; dim 1..=65535", site="Writer::clear_db_and_create_a_single_leaf")
 
+# ---------------------------------------------------------------- binary quantisation (C12)
+BQF = ["unaligned_vector.verif_bq.rs"]
+for _d, _t in ((1, "quick"), (5, "quick"), (64, "quick"), (65, "quick"), (3, "thorough"), (63, "thorough"), (70, "thorough")):
+    K("bq_pack_dim%d" % _d, ["C12", "C05"], BQF,
+      "from_slice sets bit i iff the sign bit of x_i is clear, pads with zeros to a multiple of 64; len/iter/scalar to_vec read +1/-1 back (dim %d)" % _d,
+      "dim %d, all f32 bit patterns (+-0, NaNs of both signs, infinities)" % _d, tier=_t, site="BinaryQuantized::from_slice/iter/to_vec")
+K("bq_hamming_geometry_dim5", ["C12"], BQF,
+  "quantised Euclidean = 4h (4h/d normalised), Manhattan = 2h (2h/d), zero for equal patterns, symmetric",
+  "dim 5, two arbitrary f32 vectors", site="binary_quantized_{euclidean,manhattan}::built_distance")
+K("bq_cosine_geometry_dim5", ["C12"], BQF,
+  "quantised Cosine = h/64 (padded length), zero for equal patterns, symmetric, strictly increasing in h",
+  "dim 5, three arbitrary f32 vectors", site="binary_quantized_cosine::built_distance")
+
+# ---------------------------------------------------------------- changing the metric (C18)
+DCF = ["writer.verif_distance_change.rs"]
+_DB = "constant-shape database: index 7 = {metadata, one tree node, items 1 and u32::MAX}, neighbours (6,Item,1) and (8,Tree,0); dim 3; all value bytes symbolic"
+# parked: the whole-function Kani harnesses of prepare_changing_distance (f32<->quantised re-encoding through Vec-heavy
+# iterator code) gave no verdict in 15 min even on a 3-entry database; see DESIGN.md C18.
+K("change_to_same_metric_is_noop", ["C18"], DCF, "prepare_changing_distance to the same metric changes nothing and writes nothing", _DB,
+  site="Writer::prepare_changing_distance")
+
 PROPS = {}
 
 KANI_NOTE = ("Trusted: Kani/CBMC and rustc MIR semantics; the environment models in /verif/models (heed store, "
@@ -208,6 +229,25 @@ P("C15", "Build options are honoured: tree count and bucket capacity",
   bounds={"dimension": "1..=4096", "items": "sets over 64 ids", "roots": "<= 3"},
   outside_claim=["reader-visible counts after a real build (composition)"],
   assumptions=["environment models are faithful for the calls arroy makes"])
+P("C12", "Binary quantisation keeps exactly the sign pattern and its Hamming geometry",
+  "bounded model checking (Kani/CBMC) of the real packing/unpacking/xor-popcount code, integer reasoning over all f32 bit patterns",
+  "Bounded model checking: the real from_slice/iter/to_vec and the three quantised distance kernels are decided for every f32 bit pattern at the listed dimensions.",
+  stubs_and_models=STD_STUBS + ["stub std_detect::detect::cache::test -> false (scalar to_vec path; SSE path separately with _mm_blendv_ps stubbed lane-wise)"],
+  functions_encoded=["BinaryQuantized::from_slice", "from_slice_non_optimized", "BinaryQuantizedIterator", "to_vec_non_optimized",
+                     "dot_product_binary_quantized", "squared_euclidean_distance_binary_quantized", "manhattan_distance_binary_quantized",
+                     "BinaryQuantizedCosine::built_distance"],
+  bounds={"dimension": "1, 3, 5, 63, 64, 65, 70 for packing; 5 for distances"},
+  outside_claim=["NEON paths", "dims > 70 (the word loop is uniform)"],
+  assumptions=[])
+P("C18", "Changing the metric keeps the items and forces a rebuild",
+  "bounded model checking (Kani/CBMC) of prepare_changing_distance over a constant-shape model database with symbolic vectors",
+  "Bounded model checking of prepare_changing_distance for representative metric pairs covering the four codec transitions and the identity, with a whole-store frame condition.",
+  stubs_and_models=STD_STUBS + MODELS + ["stub _mm_blendv_ps lane-wise (quantised sources)"],
+  functions_encoded=["Writer::prepare_changing_distance", "writer::clear_tree_nodes", "Writer::need_build", "UnalignedVector::to_vec/from_vec", "Distance::new_header"],
+  bounds={"database": "constant shape, 6 entries, dim 3", "pairs": "E->M, E->Dot, Dot->E, E->BQE, BQE->E, BQE->BQM, E->E"},
+  outside_claim=["the rebuilt index (C01/C02)", "metric pairs whose new header needs float arithmetic on symbolic data (Cosine norm)"],
+  assumptions=["environment models are faithful for the calls arroy makes"])
+claim("C12")
 claim("C15")
 claim("C05")
 claim("C06")
